@@ -5,7 +5,7 @@ func init() { register("C03", checkC03) }
 func checkC03(p *Program, tier string) *Result {
 	r := newResult("C03")
 	r.Explanation = "R-PADSHAPE: in the function that calls md5.New — (a) the first decision is Header.Flags.Has(UnencryptedFlag) returning nil at once; (b) inside the pad loop the hash calls are exactly Reset, Write(session id big-endian), Write(secret parameter), Write(version octet), Write(one octet byte(Header.SeqNo)), Write(previous digest; empty on the first round), Sum(nil); (c) digests are concatenated while len(pad) < int(Header.Length) and the pad is truncated to Header.Length; (d) the only write to the body is Body[i] = Body[i] ^ pad[i]; (e) nothing else (no header field, not Header.Length) is stored and the packet is not passed on; (f) the reader applies it after the packet decode and before the key-mismatch detector, the writer before MarshalBinary, both with the wrapper's secret field, set once from the constructor's parameter. R-LAYOUT (header) ties the octets fed to the hash to the octets on the wire; R-BOUNDS covers pad[i]; R-FRAMING (writer) orders length store, pad and marshal. Reversibility follows: the function XORs with a pad that depends only on header and secret, which it does not modify."
-	rulePadShape(p, r)
+	rulePadShape(p, r, "abcdef")
 	// the header bytes on the wire are the header fields the pad is computed from
 	for _, t := range []string{"Header"} {
 		want := rfcLayouts[t]
@@ -15,6 +15,7 @@ func checkC03(p *Program, tier string) *Result {
 		r.cond(len(derrs) == 0 && equalStrings(dec, want), "R-LAYOUT", t+":decoder", "-", "the header decoder reads exactly the header's own fields", "the header decoder does not read exactly the header's own fields")
 	}
 	ruleFramingWriter(p, r)
+	r.discard("R-FRAMING", ":no-silent-drop") // whether a reply is written at all is C07's clause
 	rulePadPrecondition(p, r)
 	r.Trusted = append(r.Trusted, "crypto/md5", "hash.Hash Reset/Write/Sum contracts")
 	r.Assumptions = append(r.Assumptions, "client.go passes the dialer's secret argument to the wrapper constructor (constructor parameter tracing covers the store, not the caller's choice of key)")
